@@ -37,10 +37,38 @@ theorem adjAgree_head (a b : Applier) (r : List Applier) (h : adjAgree (a :: b :
 example : adjAgree [⟨"LimitOpt", "DTLSServerApply", ["LimitEndpoint=o.limit"]⟩, ⟨"LimitOpt", "TCPServerApply", ["LimitEndpoint=o.endpointLimit"]⟩] = false := by decide
 example : adjAgree [⟨"AOpt", "TCPClientApply", ["A=o.a"]⟩, ⟨"AOpt", "UDPClientApply", ["A=o.a"]⟩, ⟨"BOpt", "UDPClientApply", ["B=o.b"]⟩] = true := by decide
 
+/-! ### the servers' per-connection configuration
+
+What `createConn` (tcp, dtls) / `getOrCreateConn` (udp) write into the configuration of an accepted connection.  Every
+field is copied from the server's setting **of the same name**; the only other values are the ones listed in `special`
+(the stream connection lives in the server's context and owns its socket; the datagram server wraps the handler for its
+discovery receivers).  The two datagram-style servers fill in the same set of fields, and the fields every connection
+needs are filled in by all three. -/
+
+def special : List ConnField := [⟨"tcp", "Ctx", "s.ctx"⟩, ⟨"tcp", "CloseSocket", "true"⟩, ⟨"udp", "Handler", "func"⟩]
+
+def sameNamed (l : List ConnField) : Bool := l.all (fun c => c.value == "s.cfg." ++ c.field || special.contains c)
+
+def fieldsOf (sv : String) (l : List ConnField) : List String := (l.filter (·.server == sv)).map (·.field)
+
+def sameSet (a b : List String) : Bool := a.all b.contains && b.all a.contains
+
+def needed : List String := ["BlockwiseSZX", "Errors", "GetToken", "Handler", "MessagePool", "ProcessReceivedMessage", "ReceivedMessageQueueSize"]
+
+theorem server_connection_wiring :
+    sameNamed connFields = true ∧ sameSet (fieldsOf "dtls" connFields) (fieldsOf "udp" connFields) = true ∧
+    (["tcp", "dtls", "udp"].all fun sv => needed.all fun f => (fieldsOf sv connFields).contains f) = true ∧
+    (fieldsOf "tcp" connFields).contains "MaxMessageSize" = true ∧ (fieldsOf "tcp" connFields).contains "Ctx" = true := by decide
+
+-- not vacuous: a limit copied from the wrong setting, a context that is not the server's
+example : sameNamed [⟨"dtls", "LimitClientEndpointParallelRequests", "s.cfg.LimitClientParallelRequests"⟩] = false := by decide
+example : sameNamed [⟨"tcp", "Ctx", "cfg.Ctx"⟩] = false := by decide
+
 end CoapVerif.Props.C10Wiring
 
 section Audit
 open CoapVerif.Props.C10Wiring
 #print axioms option_appliers_agree
 #print axioms adjAgree_head
+#print axioms server_connection_wiring
 end Audit
